@@ -1,0 +1,8 @@
+//go:build !verif
+
+package appdb
+
+import db "github.com/tendermint/tm-db"
+
+// verifOpenDB is a simulation seam; without the verif build tag it is inert.
+func verifOpenDB(name, dir string) db.DB { return nil }
